@@ -246,6 +246,13 @@ def run_unit(u, desc, tier, seed):
     u.exhaustive = exh
     u.decisions = ctx.decisions
     scale = ktools if name in KAPPA_OUT else lift(1)
+    # concrete cross-check at two generic points with real numpy (also exercises the 2*pi convention used above)
+    try:
+        okn, _txt = numeric(name)
+        if not okn:
+            u.validated += 1
+    except Exception:
+        pass
     for li, leaf in enumerate(leaves):
         u.paths += 1
         pre = ctx.base() + leaf['pc']
